@@ -20,10 +20,22 @@
   projection's central longitude moves the antimeridian — which faces cross for a given projection
   (`G.am p`; §1 computes it from the shell longitudes).  Projection `0` is "no projection".
 
-  The model is the code AFTER the two proposed repairs `fixes/C15-gdf-nan-mask-axis.patch`
-  (NaN mask reduced over both axes) and `fixes/C15-linecollection-cache-projection.patch`
-  (projection stored in the line cache).  Everything else is as the code stands, including the
-  behaviours recorded as known findings (marked "as-is" below).
+  REPAIR SWITCHES.  The conversions and the state machine take a `Repairs` record; each field is one
+  proposed patch under fixes/ that changes what is modelled here:
+    * `ignoreProj`  fixes/C15-ignore-honours-projection.patch — with `periodic_elements='ignore'` the non-NaN
+                    positions are computed on (and index) the full face set, and the PolyCollection /
+                    LineCollection vertices are the projected ones;
+    * `sideRestore` fixes/C15-export-side-tables.patch — a conversion served from the cache restores the side
+                    tables (`antimeridian_face_indices`, `non_nan_polygon_indices`) that belong to the cached
+                    object;
+    * `copyFrame`   fixes/C15-dataarray-gdf-copy.patch — `UxDataArray.to_geodataframe` attaches its column to a
+                    shallow copy of the (cached) frame.
+  `Repairs.all` is the code with the patches (what the driver runs and the property theorems are about),
+  `Repairs.asIs` the code without them (the proved counterexamples `asis_*` in Props/C15.lean).
+  Already committed repairs (NaN mask over both axes, projection stored in the line cache, engine kept when NaN
+  polygons are filtered) are part of both.  fixes/C15-geopandas-nan-shells.patch and
+  fixes/C15-polycollection-split-crossing-only.patch repair behaviour of third-party calls (shapely on NaN rings,
+  antimeridian.fix_polygon on non-crossing faces) that this model treats as parameters: no switch.
 
   Import-free (core Lean only): linked into `drv_c15`.
 -/
@@ -106,35 +118,55 @@ def amOf (g : G) (p : Nat) : List Nat := idxWhere (g.am p) g.n
 /-- `np.delete(np.arange(n_face), antimeridian_face_indices)` -/
 def keep (g : G) (p : Nat) : List Nat := deleteIdx (List.range g.n) (amOf g p)
 
-/-- `non_nan_polygon_indices`: `None` without projection, otherwise positions IN THE ARRAY WITH THE
-    CROSSING FACES DELETED of the shells without NaN (repaired: mask over both axes) -/
+/-- which of the proposed patches are applied (see the header) -/
+structure Repairs where
+  ignoreProj : Bool
+  sideRestore : Bool
+  copyFrame : Bool
+deriving DecidableEq, Repr
+
+def Repairs.all : Repairs := ⟨true, true, true⟩
+def Repairs.asIs : Repairs := ⟨false, false, false⟩
+
+/-- `non_nan_polygon_indices` of `'exclude'`: `None` without projection, otherwise positions IN THE ARRAY
+    WITH THE CROSSING FACES DELETED of the shells without NaN -/
 def nnOf (g : G) (p : Nat) : Option (List Nat) :=
   if p = 0 then none else some (posWhere (fun i => !g.nan p i) (keep g p))
+
+/-- the same table computed on ALL faces (nothing deleted) -/
+def nnAll (g : G) (p : Nat) : Option (List Nat) :=
+  if p = 0 then none else some (posWhere (fun i => !g.nan p i) (List.range g.n))
+
+/-- the table a conversion computes: as-is always the `'exclude'` one; repaired, the one that matches the
+    array the policy exports -/
+def nnFor (R : Repairs) (g : G) (pe : Pe) (p : Nat) : Option (List Nat) :=
+  if pe = .exclude ∨ R.ignoreProj = false then nnOf g p else nnAll g p
 
 /-- corrected_to_original_faces of the 'split' policy -/
 def c2oSplit (g : G) (p : Nat) : List Nat :=
   (List.range g.n).flatMap (fun i => List.replicate (g.pieces p i) i)
 
-/-- rows of the GeoDataFrame: polygon `k` is face `(gdfRows g pe p)[k]` -/
-def gdfRows (g : G) (pe : Pe) (p : Nat) : List Nat :=
+/-- rows of the GeoDataFrame: polygon `k` is face `(gdfRows R g pe p)[k]` -/
+def gdfRows (R : Repairs) (g : G) (pe : Pe) (p : Nat) : List Nat :=
   match pe with
   | .exclude => applyNn (nnOf g p) (keep g p)
   | .split => List.range g.n
   -- as-is: the non-NaN positions were computed on the array WITHOUT the crossing faces but
   -- index the array WITH them
-  | .ignore => applyNn (nnOf g p) (List.range g.n)
+  | .ignore => applyNn (nnFor R g .ignore p) (List.range g.n)
 
 /-- data column of `UxDataArray.to_geodataframe`, given the side tables it reads back -/
 def gdfData {β} (pe : Pe) (amSide : List Nat) (nn : Option (List Nat)) (vals : List β) : List β :=
   applyNn nn (if pe = .exclude then deleteIdx vals amSide else vals)
 
 /-- PolyCollection: (polygon ↦ face, corrected_to_original_faces, projection of the vertices) -/
-def polyRows (g : G) (pe : Pe) (p : Nat) : List Nat × List Nat × Nat :=
+def polyRows (R : Repairs) (g : G) (pe : Pe) (p : Nat) : List Nat × List Nat × Nat :=
   match pe with
   | .exclude => (applyNn (nnOf g p) (keep g p), keep g p, p)
   | .split => (c2oSplit g p, c2oSplit g p, 0)
   -- as-is: 'ignore' returns the UNPROJECTED shells of all faces
-  | .ignore => (List.range g.n, [], 0)
+  | .ignore => if R.ignoreProj then (applyNn (nnAll g p) (List.range g.n), [], p)
+               else (List.range g.n, [], 0)
 
 /-- data array of `UxDataArray.to_polycollection` -/
 def polyData {β} (pe : Pe) (amSide : List Nat) (nn : Option (List Nat)) (c2o : List Nat)
@@ -145,11 +177,12 @@ def polyData {β} (pe : Pe) (amSide : List Nat) (nn : Option (List Nat)) (c2o : 
     | .ignore => vals)
 
 /-- LineCollection: (ring ↦ face, projection of the vertices); 'split' never projects -/
-def lineRows (g : G) (pe : Pe) (p : Nat) : List Nat × Nat :=
+def lineRows (R : Repairs) (g : G) (pe : Pe) (p : Nat) : List Nat × Nat :=
   match pe with
   | .exclude => (applyNn (nnOf g p) (keep g p), p)
   | .split => (c2oSplit g p, 0)
-  | .ignore => (List.range g.n, 0)
+  | .ignore => if R.ignoreProj then (applyNn (nnAll g p) (List.range g.n), p)
+               else (List.range g.n, 0)
 
 /-! ## 4. specification (decidable; the driver evaluates it on the implementation's output) -/
 
@@ -183,10 +216,15 @@ def Unsupported {β} (c : Case β) : Prop := c.pe = .split ∧ c.proj ≠ 0 ∧ 
 def nanEff {β} (c : Case β) (tag : Int) (i : Nat) : Bool :=
   if tag = 0 then false else flag c.nan i
 
-/-- every polygon is a face, in one coordinate system, and that system is lon/lat or the
-    requested projection -/
+/-- the coordinate system the vertices have to be in: lon/lat without projection and for the pieces of
+    `'split'` (only the LineCollection accepts it with a projection, and documents that it does not project),
+    otherwise the requested projection -/
+def expTag {β} (c : Case β) : Int :=
+  if c.proj = 0 ∨ c.pe = .split then 0 else Int.ofNat c.proj
+
+/-- every polygon is a face, and all vertices are the face's corners in the requested coordinate system -/
 def VerticesOK {β} (c : Case β) (o : Obs β) : Prop :=
-  (∀ r ∈ o.rows, 0 ≤ r ∧ r < c.n) ∧ (o.tag = 0 ∨ (c.proj ≠ 0 ∧ o.tag = c.proj))
+  (∀ r ∈ o.rows, 0 ≤ r ∧ r < c.n) ∧ o.tag = expTag c
 
 /-- no face is exported twice (except the pieces of a split face) -/
 def NoRepeat {β} (c : Case β) (o : Obs β) : Prop :=
@@ -253,18 +291,23 @@ structure Frame (β : Type) where
   cols : List (Nat × List β)
 deriving Repr, DecidableEq
 
+/-- cached frame + the side tables that belong to it (`am` is only read back when `sideRestore`) -/
 structure GdfEntry where
   key : Key
   id : Nat
   nn : Option (List Nat)
+  am : List Nat
 deriving Repr, DecidableEq
 
+/-- cached collection + the side tables that belong to it (only read back when `sideRestore`) -/
 structure PolyEntry where
   pe : Pe
   proj : Nat
   rows : List Nat
   c2o : List Nat
   tag : Nat
+  nn : Option (List Nat)
+  am : List Nat
 deriving Repr, DecidableEq
 
 structure LineEntry where
@@ -313,29 +356,27 @@ def Op.cache {β} : Op β → Bool
   | .daPoly _ _ _ c _ => c
   | .gridLine _ _ c _ => c
 
-/-- a conversion that writes into a frame the cache also holds (or will hold) -/
-def Op.taints {β} : Op β → Bool
-  | .daGdf _ _ _ c o => c || !o
-  | _ => false
-
-/-- compute a fresh frame; side table written unconditionally (as-is), entry only when caching -/
-def gdfCompute {β} (g : G) (s : St β) (k : Key) (cache : Bool) :
+/-- compute a fresh frame; the side table is written by every computation, the entry only when caching -/
+def gdfCompute {β} (R : Repairs) (g : G) (s : St β) (k : Key) (cache : Bool) :
     St β × Option (Nat × Option (List Nat)) :=
-  let nn := nnOf g k.proj
+  let nn := nnFor R g k.pe k.proj
   let id := s.heap.length
-  let fr : Frame β := { rows := gdfRows g k.pe k.proj, tag := k.proj, eng := k.eng, cols := [] }
+  let fr : Frame β := { rows := gdfRows R g k.pe k.proj, tag := k.proj, eng := k.eng, cols := [] }
   ({ s with heap := s.heap ++ [fr], gdfAm := amOf g k.proj,
-            gdf := if cache then some ⟨k, id, nn⟩ else s.gdf },
+            gdf := if cache then some ⟨k, id, nn, amOf g k.proj⟩ else s.gdf },
    some (id, nn))
 
 /-- `Grid.to_geodataframe(..., return_non_nan_polygon_indices=True)` -/
-def gdfCore {β} (g : G) (s : St β) (k : Key) (cache override : Bool) :
+def gdfCore {β} (R : Repairs) (g : G) (s : St β) (k : Key) (cache override : Bool) :
     St β × Option (Nat × Option (List Nat)) :=
   if k.pe = .split ∧ k.proj ≠ 0 then (s, none)
   else match s.gdf with
-    | some e => if e.key = k ∧ override = false then (s, some (e.id, e.nn))
-                else gdfCompute g s k cache
-    | none => gdfCompute g s k cache
+    | some e =>
+        if e.key = k ∧ override = false then
+          -- served from the cache; repaired: the side table of the cached frame is restored
+          ({ s with gdfAm := if R.sideRestore then e.am else s.gdfAm }, some (e.id, e.nn))
+        else gdfCompute R g s k cache
+    | none => gdfCompute R g s k cache
 
 /-- `gdf[var_name] = _data` -/
 def setCol {β} (cols : List (Nat × List β)) (v : Nat) (d : List β) : List (Nat × List β) :=
@@ -347,65 +388,80 @@ def writeCol {β} (heap : List (Frame β)) (id v : Nat) (d : List β) : List (Fr
   | some fr => heap.set id { fr with cols := setCol fr.cols v d }
   | none => heap
 
-def polyCompute {β} (g : G) (s : St β) (pe : Pe) (p : Nat) (cache : Bool) :
+/-- repaired `gdf = gdf.copy(deep=False); gdf[var_name] = _data`: a NEW frame (next free address) that shares
+    the geometry; returns the heap and the address of the frame handed out -/
+def attachCol {β} (R : Repairs) (heap : List (Frame β)) (id v : Nat) (d : List β) :
+    List (Frame β) × Nat :=
+  if R.copyFrame then
+    match heap[id]? with
+    | some fr => (heap ++ [{ fr with cols := setCol fr.cols v d }], heap.length)
+    | none => (heap, id)
+  else (writeCol heap id v d, id)
+
+def polyCompute {β} (R : Repairs) (g : G) (s : St β) (pe : Pe) (p : Nat) (cache : Bool) :
     St β × Option (List Nat × List Nat × Nat) :=
-  let r := polyRows g pe p
-  ({ s with polyNn := nnOf g p, polyAm := amOf g p,
-            poly := if cache then some ⟨pe, p, r.1, r.2.1, r.2.2⟩ else s.poly },
+  let r := polyRows R g pe p
+  let nn := nnFor R g pe p
+  ({ s with polyNn := nn, polyAm := amOf g p,
+            poly := if cache then some ⟨pe, p, r.1, r.2.1, r.2.2, nn, amOf g p⟩ else s.poly },
    some r)
 
 /-- `Grid.to_polycollection(..., return_indices=True)` -/
-def polyCore {β} (g : G) (s : St β) (pe : Pe) (p : Nat) (cache override : Bool) :
+def polyCore {β} (R : Repairs) (g : G) (s : St β) (pe : Pe) (p : Nat) (cache override : Bool) :
     St β × Option (List Nat × List Nat × Nat) :=
   match s.poly with
   | some e =>
-      if e.pe = pe ∧ e.proj = p ∧ override = false then (s, some (e.rows, e.c2o, e.tag))
-      else if pe = .split ∧ p ≠ 0 then (s, none) else polyCompute g s pe p cache
-  | none => if pe = .split ∧ p ≠ 0 then (s, none) else polyCompute g s pe p cache
+      if e.pe = pe ∧ e.proj = p ∧ override = false then
+        ({ s with polyNn := if R.sideRestore then e.nn else s.polyNn,
+                  polyAm := if R.sideRestore then e.am else s.polyAm },
+         some (e.rows, e.c2o, e.tag))
+      else if pe = .split ∧ p ≠ 0 then (s, none) else polyCompute R g s pe p cache
+  | none => if pe = .split ∧ p ≠ 0 then (s, none) else polyCompute R g s pe p cache
 
-def lineCompute {β} (g : G) (s : St β) (pe : Pe) (p : Nat) (cache : Bool) :
+def lineCompute {β} (R : Repairs) (g : G) (s : St β) (pe : Pe) (p : Nat) (cache : Bool) :
     St β × List Nat × Nat :=
-  let r := lineRows g pe p
+  let r := lineRows R g pe p
   ({ s with line := if cache then some ⟨pe, p, r.1, r.2⟩ else s.line }, r)
 
-def lineCore {β} (g : G) (s : St β) (pe : Pe) (p : Nat) (cache override : Bool) :
+def lineCore {β} (R : Repairs) (g : G) (s : St β) (pe : Pe) (p : Nat) (cache override : Bool) :
     St β × List Nat × Nat :=
   match s.line with
   | some e => if e.pe = pe ∧ e.proj = p ∧ override = false then (s, e.rows, e.tag)
-              else lineCompute g s pe p cache
-  | none => lineCompute g s pe p cache
+              else lineCompute R g s pe p cache
+  | none => lineCompute R g s pe p cache
 
-def step {β} (g : G) (s : St β) : Op β → St β × Ret β
+def step {β} (R : Repairs) (g : G) (s : St β) : Op β → St β × Ret β
   | .gridGdf k c o =>
-      match gdfCore g s k c o with
+      match gdfCore R g s k c o with
       | (s1, some (id, _)) => (s1, .frame id)
       | (s1, none) => (s1, .error)
   | .daGdf v vals k c o =>
       if vals.length ≠ g.n then (s, .error) else
-      match gdfCore g s k c o with
+      match gdfCore R g s k c o with
       | (s1, some (id, nn)) =>
-          ({ s1 with heap := writeCol s1.heap id v (gdfData k.pe s1.gdfAm nn vals) }, .frame id)
+          let r := attachCol R s1.heap id v (gdfData k.pe s1.gdfAm nn vals)
+          ({ s1 with heap := r.1 }, .frame r.2)
       | (s1, none) => (s1, .error)
   | .gridPoly pe p c o =>
-      match polyCore g s pe p c o with
+      match polyCore R g s pe p c o with
       | (s1, some (rows, _, tag)) => (s1, .poly rows tag none)
       | (s1, none) => (s1, .error)
   | .daPoly vals pe p c o =>
       if vals.length ≠ g.n then (s, .error) else
-      match polyCore g s pe p c o with
+      match polyCore R g s pe p c o with
       | (s1, some (rows, c2o, tag)) =>
           (s1, .poly rows tag (some (polyData pe s1.polyAm s1.polyNn c2o vals)))
       | (s1, none) => (s1, .error)
   | .gridLine pe p c o =>
-      match lineCore g s pe p c o with
+      match lineCore R g s pe p c o with
       | (s1, rows, tag) => (s1, .line rows tag)
 
 /-- run a history, collecting what every conversion returned -/
-def run {β} (g : G) : St β → List (Op β) → St β × List (Ret β)
+def run {β} (R : Repairs) (g : G) : St β → List (Op β) → St β × List (Ret β)
   | s, [] => (s, [])
   | s, op :: ops =>
-    let r := step g s op
-    let rest := run g r.1 ops
+    let r := step R g s op
+    let rest := run R g r.1 ops
     (rest.1, r.2 :: rest.2)
 
 /-- look a column up by variable name -/
@@ -439,30 +495,30 @@ def view {β} (s : St β) (op : Op β) : Ret β → View β
   | .error => View.error
 
 /-- the view a conversion has according to its ARGUMENTS ALONE (closed form, no state) -/
-def pureView {β} (g : G) : Op β → View β
+def pureView {β} (R : Repairs) (g : G) : Op β → View β
   | .gridGdf k _ _ =>
       if k.pe = .split ∧ k.proj ≠ 0 then View.error
-      else { err := false, rows := gdfRows g k.pe k.proj, tag := k.proj, data := none }
+      else { err := false, rows := gdfRows R g k.pe k.proj, tag := k.proj, data := none }
   | .daGdf _ vals k _ _ =>
       if vals.length ≠ g.n then View.error
       else if k.pe = .split ∧ k.proj ≠ 0 then View.error
-      else { err := false, rows := gdfRows g k.pe k.proj, tag := k.proj,
-             data := some (gdfData k.pe (amOf g k.proj) (nnOf g k.proj) vals) }
+      else { err := false, rows := gdfRows R g k.pe k.proj, tag := k.proj,
+             data := some (gdfData k.pe (amOf g k.proj) (nnFor R g k.pe k.proj) vals) }
   | .gridPoly pe p _ _ =>
       if pe = .split ∧ p ≠ 0 then View.error
-      else { err := false, rows := (polyRows g pe p).1, tag := (polyRows g pe p).2.2, data := none }
+      else { err := false, rows := (polyRows R g pe p).1, tag := (polyRows R g pe p).2.2, data := none }
   | .daPoly vals pe p _ _ =>
       if vals.length ≠ g.n then View.error
       else if pe = .split ∧ p ≠ 0 then View.error
-      else { err := false, rows := (polyRows g pe p).1, tag := (polyRows g pe p).2.2,
-             data := some (polyData pe (amOf g p) (nnOf g p) (polyRows g pe p).2.1 vals) }
+      else { err := false, rows := (polyRows R g pe p).1, tag := (polyRows R g pe p).2.2,
+             data := some (polyData pe (amOf g p) (nnFor R g pe p) (polyRows R g pe p).2.1 vals) }
   | .gridLine pe p _ _ =>
-      { err := false, rows := (lineRows g pe p).1, tag := (lineRows g pe p).2, data := none }
+      { err := false, rows := (lineRows R g pe p).1, tag := (lineRows R g pe p).2, data := none }
 
 /-- the view of the conversion `op` made after the history `h` on a new grid -/
-def viewAfter {β} (g : G) (h : List (Op β)) (op : Op β) : View β :=
-  let s := (run g St.init h).1
-  let r := step g s op
+def viewAfter {β} (R : Repairs) (g : G) (h : List (Op β)) (op : Op β) : View β :=
+  let s := (run R g St.init h).1
+  let r := step R g s op
   view r.1 op r.2
 
 /-- kind of a conversion for the specification -/
